@@ -269,7 +269,11 @@ func VerifHarness_C12_novouch() {
 	u2.untrustedState.SetVersionReceived() // so that its periodic check runs
 	t := vkTx(90, []int{0}, true)
 	tid := *t.TxHash()
-	for e := 0; e < 5; e++ {
+	nEvents := 5
+	if verifrt.Thorough() {
+		nEvents = 6
+	}
+	for e := 0; e < nEvents; e++ {
 		verifrt.Advance(time.Duration(verifrt.IntRange("delay-ns", 0, 6_000_000_000)))
 		switch verifrt.Choose("event", 6) {
 		case 5: // the untrusted node's periodic check (re-requests announced transactions)
